@@ -355,7 +355,7 @@ func TestC32(t *testing.T) {
 	}
 
 	types := typesWhere(func(ty oracle.Type) bool { return ty.IsInteger() && (ty.Bits == 0 || ty.Bits >= 128) })
-	n := evid.N(9000, 400_000)
+	n := evid.N(9000, 300_000)
 	for _, ty := range types {
 		r := evid.Rand(int64(evid.Hash("C32", ty.Name) % 1000003))
 		nn := n
